@@ -35,11 +35,11 @@ func msgTypeNames(w *World, prop string) map[int64]string {
 
 // terminal reply value of a handler return, followed through the handler's local closures.
 type replyTerm struct {
-	val    ssa.Value       // terminal value (constructor call, nil const, ...)
-	ret    *ssa.Return     // the return in the handler itself
-	chain  []*ssa.Call     // closure calls followed (outermost first)
-	inFunc *ssa.Function   // function containing val
-	errVal ssa.Value       // the matching error result (terminal)
+	val    ssa.Value     // terminal value (constructor call, nil const, ...)
+	ret    *ssa.Return   // the return in the handler itself
+	chain  []*ssa.Call   // closure calls followed (outermost first)
+	inFunc *ssa.Function // function containing val
+	errVal ssa.Value     // the matching error result (terminal)
 }
 
 func replyTerminals(fn *ssa.Function) []replyTerm {
